@@ -8,7 +8,10 @@
      G.8  identity key pair extracted from the signature of G.2 (appendix B.2.3)
      G.9, G.10  identity-based signatures: IdVerify accepts them, IdSign with the implied nonce reproduces them, the
      point V of B.2.5 as written equals its one-pass evaluation; altered S0 / S1 / H0 / H / R are rejected *)
-EXTENDS Bign, TLC
+EXTENDS Bign, IOUtils, TLC
+
+\* VEC_TIER = "quick": the vectors of Sel (every table of the appendix once); anything else: all of them
+Quick == "VEC_TIER" \in DOMAIN IOEnv /\ IOEnv.VEC_TIER = "quick"
 
 P == Params128
 OID == <<6, 9, 42, 112, 0, 2, 0, 34, 101, 31, 81>>           \* 1.2.112.0.2.0.34.101.31.81 (belt-hash)
@@ -91,8 +94,11 @@ Vec(v) ==
                    IN /\ Less(s1, P.q) /\ Mod(Add(Add(s1, Num(hk[1])), Mul(Add(OfInt(77), PowL(P)), e)), P.q) = hk[2]
                       /\ (e = Zero => s1 = SubMod(hk[2], Mod(Num(hk[1]), P.q), P.q))
 NVec == 31
+\* quick: G.8 (v18), G.9 and G.10 accepted (v19, v20), G.10 reproduced (v23), the rejections decided without the point V
+\* (v28), the boundary keys (v31); the two evaluations of V compared, G.9 reproduced and the rejections by hash: thorough
+Sel == IF Quick THEN (1..NVec) \ {21, 22, 24, 25, 26, 27, 29, 30} ELSE 1..NVec
 VARIABLES phase, v, ok
 Init == phase = 0 /\ v = 0 /\ ok = TRUE
-Next == \/ phase = 0 /\ phase' = 1 /\ v' \in 1..NVec /\ ok' = TRUE
+Next == \/ phase = 0 /\ phase' = 1 /\ v' \in Sel /\ ok' = TRUE
         \/ phase = 1 /\ phase' = 2 /\ v' = v /\ ok' = Vec(v) /\ (ok' \/ PrintT(<<"@BAD", v>>))
 =============================================================================
